@@ -96,4 +96,10 @@ def cleanSamplePar (K : Kernels) (cfg : Config) (sample : List Node) (atomic : B
     atomic s2.assign s2.picks
   finish cfg ns r1.1 r1.2 r2.1 r2.2
 
+/-- `cleanDataset` with the worker pools of every sample made explicit: `sch name` = the schedules of the two
+parallel phases of sample `name` -/
+def cleanDatasetPar (K : Kernels) (cfg : Config) (db : List Rec) (atomic : Bool) (sch : Nat → Sched × Sched) :
+    Option (List Annot) :=
+  (runSamples (fun name s => cleanSamplePar K cfg s atomic (sch name).1 (sch name).2) db).map (annotateAll db)
+
 end ObiVerif.Race
